@@ -96,4 +96,12 @@ CLAIMED['C17'] = dict(
     technique='CrossHair-engine symbolic execution of get_metacomments on a symbolic key + z3-enumerated layouts / filter selections through the real traversal code against spine-path and category-tree models',
     design='5 C17')
 
+CLAIMED['C10'] = dict(
+    engine='E2+E1',
+    text='SMT validity plus bounded model checking. E2: PitchPositionReferenceSystem.compute_position, PositionInStaff.line/space/is_line and the integer assignments (distance, idx, octs) of gkern_to_g_clef_pitch are translated from their current source and the position lemma is unsat-checked for EVERY integer octave, base pitch and staff position (5 queries). '
+         'E1: pitch_to_gkern_string on the full 7 clefs x 5 octave marks x 7 letters x 5 accidentals x octaves 0..8 grid (11 025 solver-enumerated cases: same position under G2, G2 identity, bottom line -> e, one step up, argument untouched); documents with clef changes mid-score, chords, a split with staggered clef changes and a join: akern/aekern compared cell by cell with kern/ekern converted under the clef in force on each spine path (reference spine-path model).',
+    note=NOTE + 'Positions are anchored at the clef\'s own bottom_line(), as the property words it. One open known finding (natural sign / display suffix counted as pitch letters).',
+    technique='AST->z3 integer translation of the staff-position kernels (unsat for all octaves) + CrossHair-engine enumeration of the clef/pitch grid and of documents against a text-level clef-in-force model',
+    design='5 C10')
+
 PENDING_REASON = 'check under construction in this session (to be claimed; see DESIGN.md section 5)'
